@@ -132,7 +132,12 @@ func engineC23(c *vctx) error {
 			args := []string{"forget", "--json"}
 			var p data.ExpirePolicy
 			kind := ""
-			idsMode := rng.chance(15)
+			idsMode := rng.chance(22)
+			badID := false
+			forceDeg := -1 // corpus: `forget ""` and `forget <id> ""` on the first repository
+			if r == 0 && s < 2 && len(before) >= 2 {
+				idsMode, forceDeg = true, s*2
+			}
 			switch pk := rng.intn(100); {
 			case idsMode:
 				kind = "ids"
@@ -198,7 +203,38 @@ func engineC23(c *vctx) error {
 						}
 					}
 				}
-				if len(sel) == 0 {
+				// degenerate id arguments: empty string, white space — they never name a snapshot
+				// (with >= 2 snapshots "" is an ambiguous prefix); the command must fail and delete nothing
+				if len(before) >= 2 && (rng.chance(45) || forceDeg >= 0) {
+					badID = true
+					kind = "ids-degenerate"
+					deg := []string{"", "", "", " ", "\t", "  "}
+					idArgs := args[len(args)-len(sel):]
+					base := append([]string(nil), args[:len(args)-len(sel)]...)
+					var mixed []string
+					pick := rng.intn(4)
+					if forceDeg >= 0 {
+						pick = forceDeg
+					}
+					switch pick {
+					case 0: // only empty ids
+						sel = nil
+						for k := 1 + rng.intn(3); k > 0; k-- {
+							mixed = append(mixed, "")
+						}
+					case 1: // only degenerate ids
+						sel = nil
+						for k := 1 + rng.intn(2); k > 0; k-- {
+							mixed = append(mixed, deg[rng.intn(len(deg))])
+						}
+					case 2: // real ids first, then a degenerate one
+						mixed = append(append(mixed, idArgs...), deg[rng.intn(len(deg))])
+					default: // a degenerate one first
+						mixed = append(append(mixed, deg[rng.intn(len(deg))]), idArgs...)
+					}
+					args = append(base, mixed...)
+				}
+				if len(sel) == 0 && !badID {
 					sel = append(sel, before[0])
 					args = append(args, before[0].id.String())
 				}
@@ -293,7 +329,7 @@ func engineC23(c *vctx) error {
 				selT[i] = fmt.Sprintf("(mkS %s %s %s %s %s)", coqN(uint64(name[b.id])), c23Tm(b.sn.Time), coqStr(b.sn.Hostname), c23Strs(b.sn.Paths), c23Strs(b.sn.Tags))
 			}
 			polT := c23Policy(p)
-			optsT := fmt.Sprintf("(mkO %s (C24m.mkG %s %s %s) %s %s %s %s false)", coqBool(idsMode), gb[1], gb[2], gb[3], polT, coqBool(unsafe), coqBool(filterEmpty), coqBool(dry))
+			optsT := fmt.Sprintf("(mkO %s (C24m.mkG %s %s %s) %s %s %s %s false %s)", coqBool(idsMode), gb[1], gb[2], gb[3], polT, coqBool(unsafe), coqBool(filterEmpty), coqBool(dry), coqBool(badID))
 			term := fmt.Sprintf("mkCase %s %s %s %s %s %s %s %s true", c23Tm(now), optsT, coqList(all), coqList(selT), coqList(failT), rk, reported, coqList(aft))
 			if len(failT) > 0 {
 				c.Hist("remove-refused")
@@ -432,7 +468,7 @@ func c23Prune(c *vctx, rng *vrng, r int) error {
 			aft = append(aft, coqN(9999))
 		}
 	}
-	optsT := fmt.Sprintf("(mkO false (C24m.mkG false false false) %s false true %s true)", c23Policy(p), coqBool(dry))
+	optsT := fmt.Sprintf("(mkO false (C24m.mkG false false false) %s false true %s true false)", c23Policy(p), coqBool(dry))
 	term := fmt.Sprintf("mkCase %s %s %s %s %s %s %s %s %s", c23Tm(now), optsT, coqList(all), coqList(selT), coqList(failT), rk, reported, coqList(aft), coqBool(checkErr == nil))
 	c.Hist("end=" + rk)
 	c.Case("prune-handoff", len(failT) > 0 && !dry, 20+len(failT), term,
